@@ -1,27 +1,43 @@
 /* c18_arena.h -- purge after the delay without a forced collect: contracts on the real arena.c.
    Included AFTER src/arena.c (the arena type and the file statics are defined there). */
 #ifdef VC_CBMC
+#ifndef VC_K
+#define VC_K 6     /* bound on the number of arenas for the bounded stand-in (B) */
+#endif
 size_t g_try_purge_n;       /* recorder: calls of mi_arena_try_purge */
 bool   g_try_purge_force;   /* arguments of the last call */
 int64_t g_try_purge_now;
 bool   g_guard_seen;        /* ghost of the interference hook */
 size_t g_w;                 /* witness arena index */
+size_t g_try_purge_true_n;  /* recorder: how many of those calls reported a purge */
 
 static bool mi_arena_try_purge(mi_arena_t* arena, mi_msecs_t now, bool force)
 __CPROVER_requires(arena != NULL)
-__CPROVER_assigns(g_try_purge_n, g_try_purge_force, g_try_purge_now)
-__CPROVER_ensures(g_try_purge_n == __CPROVER_old(g_try_purge_n) + 1 && g_try_purge_force == force && g_try_purge_now == now);
+__CPROVER_assigns(g_try_purge_n, g_try_purge_force, g_try_purge_now, g_try_purge_true_n)
+__CPROVER_ensures(g_try_purge_n == __CPROVER_old(g_try_purge_n) + 1 && g_try_purge_force == force && g_try_purge_now == now)
+__CPROVER_ensures(g_try_purge_true_n == __CPROVER_old(g_try_purge_true_n) + (__CPROVER_return_value ? 1 : 0));
 
-#define VC_DELAY      (g_opt[mi_option_purge_delay] * g_opt[mi_option_arena_purge_mult])
+#undef VC_OPT_SANE
 #define VC_OPT_SANE   (g_opt[mi_option_purge_delay] >= -1 && g_opt[mi_option_purge_delay] <= (1L << 24) && \
                        g_opt[mi_option_arena_purge_mult] >= 0 && g_opt[mi_option_arena_purge_mult] <= 1024)
+/* arena purge delay = purge_delay * arena_purge_mult: proved once on mi_arena_purge_delay, then used through the
+   logical variable g_delay (a symbolic 64-bit product inside every clause makes the queries time out) */
+long g_delay;
+static long mi_arena_purge_delay(void)
+__CPROVER_requires(VC_OPT_SANE)
+__CPROVER_assigns()
+__CPROVER_ensures(__CPROVER_return_value == g_opt[mi_option_purge_delay] * g_opt[mi_option_arena_purge_mult]);
+static long c_arena_purge_delay_use(void)
+__CPROVER_requires(1) __CPROVER_assigns() __CPROVER_ensures(__CPROVER_return_value == g_delay);
+#define VC_DELAY      g_delay
+
 
 static void mi_arenas_try_purge(bool force, bool visit_all)
-__CPROVER_requires(VC_OPT_SANE && g_now >= 0 && g_now < ((int64_t)1 << 62))
-__CPROVER_requires(mi_arena_count <= VC_K && g_try_purge_n == 0 && !g_guard_seen)
+__CPROVER_requires(g_delay >= -1024 && g_delay <= ((long)1 << 34) && g_now >= 0 && g_now < ((int64_t)1 << 62))
+__CPROVER_requires(mi_arena_count <= VC_K && g_try_purge_n == 0 && g_try_purge_true_n == 0 && !g_guard_seen)
 __CPROVER_requires(g_w < mi_arena_count ==> mi_arenas[g_w] != NULL)
 __CPROVER_requires(g_expire0 == mi_arenas_purge_expire)
-__CPROVER_assigns(g_try_purge_n, g_try_purge_force, g_try_purge_now, mi_arenas_purge_expire, g_guard_seen)
+__CPROVER_assigns(g_try_purge_n, g_try_purge_force, g_try_purge_now, g_try_purge_true_n, mi_arenas_purge_expire, g_guard_seen)
 /* expired => an arena purge is attempted, without force */
 __CPROVER_ensures((!g_preloading && VC_DELAY > 0 && !force && g_expire0 != 0 && g_expire0 <= g_now && g_w < mi_arena_count)
                   ==> (g_try_purge_n >= 1 && !g_try_purge_force && g_try_purge_now == g_now))
@@ -29,6 +45,11 @@ __CPROVER_ensures((!g_preloading && VC_DELAY > 0 && !force && g_expire0 != 0 && 
 __CPROVER_ensures((!force && (g_expire0 == 0 || g_expire0 > g_now)) ==> g_try_purge_n == 0)
 /* delay -1 (never purge) and delay 0 (purged immediately at schedule time): nothing here, even when forced */
 __CPROVER_ensures((VC_DELAY <= 0 || g_preloading) ==> g_try_purge_n == 0)
+/* the pass stopped early (it purges at most two arenas per call unless asked to visit all): the global deadline
+   stays armed so that the remaining arenas are purged by a later non-forced call */
+__CPROVER_ensures((!g_preloading && VC_DELAY > 0 && !visit_all && g_try_purge_true_n >= 2) ==> mi_arenas_purge_expire == g_now + VC_DELAY)
+/* every arena was visited and none had anything to purge: the global deadline is cleared */
+__CPROVER_ensures((g_try_purge_n >= 1 && g_try_purge_true_n == 0) ==> mi_arenas_purge_expire == 0)
 /* a forced call attempts every arena */
 __CPROVER_ensures((!g_preloading && VC_DELAY > 0 && force && g_w < mi_arena_count) ==> (g_try_purge_n >= 1 && g_try_purge_force));
 #endif
